@@ -229,6 +229,23 @@ var vkRRsets = []vkRRsetSpec{
 		`l.example.org. 300 IN TXT "` + strings.Repeat("x", 254) + `"`,
 	}},
 	{Name: "ptr-dname", Signed: []string{"sub.example.org. 300 IN DNAME Other.Example.COM."}},
+	// RDATA with embedded names, inside and outside the RFC 4034 6.2 lower-casing list, and type codes >= 64
+	{Name: "https2", Signed: []string{`h.example.org. 300 IN HTTPS 1 Svc.Example.NET. alpn="h2,h3" port=8443`, `h.example.org. 300 IN HTTPS 0 Alias.Example.ORG.`}},
+	{Name: "svcb", Signed: []string{`_dns.example.org. 300 IN SVCB 1 Dot.Example.Org. alpn="dot"`}},
+	{Name: "naptr", Signed: []string{`n.example.org. 300 IN NAPTR 100 10 "S" "SIP+D2U" "" _Sip._Udp.Example.ORG.`}},
+	{Name: "ptr", Signed: []string{"9.2.0.192.example.org. 300 IN PTR Host.Example.ORG."}},
+	{Name: "rp-kx-afsdb", Signed: []string{"r.example.org. 300 IN RP Admin.Example.ORG. Txt.Example.ORG."}},
+	{Name: "kx", Signed: []string{"k.example.org. 300 IN KX 10 Kx.Example.ORG."}},
+	{Name: "afsdb", Signed: []string{"af.example.org. 300 IN AFSDB 1 Afs.Example.ORG."}},
+	{Name: "px-rt", Signed: []string{"px.example.org. 300 IN PX 10 Map822.Example.ORG. MapX400.Example.ORG."}},
+	{Name: "minfo-hinfo", Signed: []string{"mi.example.org. 300 IN MINFO Rbox.Example.ORG. Ebox.Example.ORG."}},
+	{Name: "caa2", Signed: []string{`c.example.org. 300 IN CAA 0 issue "Ca.Example.NET"`, `c.example.org. 300 IN CAA 128 iodef "mailto:Sec@Example.org"`}},
+	{Name: "tlsa", Signed: []string{"_443._tcp.example.org. 300 IN TLSA 3 1 1 0C72AC70B745AC19998811B131D662C9AC69DBDBE7CB23E5B514B56664C5D3D6"}},
+	{Name: "unknown-type", Signed: []string{`u.example.org. 300 IN TYPE65280 \# 4 0A000001`, `u.example.org. 300 IN TYPE65280 \# 3 0A0000`}},
+	{Name: "nsec3", Signed: []string{"0p9mhaveqvm6t7vbl5lop2u3t2rp3tom.example.org. 300 IN NSEC3 1 1 12 AABBCCDD 2T7B4G4VSA5SMI47K61MV5BV1A22BOJR MX DNSKEY NS SOA NSEC3PARAM RRSIG"}},
+	{Name: "rrsig-of-rrsig", Signed: []string{"s.example.org. 300 IN RRSIG A 13 3 300 20300101000000 20200101000000 12345 Example.ORG. AAAA"}},
+	{Name: "nsec-high-types", Signed: []string{"z.example.org. 300 IN NSEC Zz.Example.org. A HTTPS CAA TYPE65280 RRSIG NSEC"}},
+	{Name: "loc-sshfp", Signed: []string{"l2.example.org. 300 IN SSHFP 4 2 9F86D081884C7D659A2FEAA0C55AD015A3BF4F1B2B0B822CD15D6C15B0F00A08"}},
 }
 
 func vkParse(lines []string) []dns.RR {
